@@ -28,6 +28,7 @@ mod c07;
 mod alloc;
 mod c18;
 mod resolve;
+mod fuzz;
 mod c06;
 mod c05;
 mod c20;
